@@ -1,6 +1,7 @@
 import SeqVerif.Model.Pruning
 import SeqVerif.Model.PruningBorders
 import SeqVerif.Model.PruningSearchDocs
+import SeqVerif.Model.C03Codec
 import SeqVerif.Model.C14Consts
 /-!
 # C14 - time-range pruning never hides a document that lies in the requested range
@@ -322,6 +323,16 @@ example :
     scanPruned fs 999999999999 1000000000500 = [(999999999999, 8), (1000000000500, 9)] ∧
     (filterInRange fs 999998900000 999999900000).length = 0 := by decide
 
+/-! ## The MIDs a sealed fraction narrows on are the MIDs that were stored -/
+
+/-- **ID block round trip, any gaps.**  `getLIDsBorders` of a sealed fraction binary-searches the MIDs unpacked from
+the ID blocks (`UnpackCache.unpackMIDs` = `unpackRawIDsVarint` over `DiskIDsBlock.packMIDs`: zigzag varints of the
+uint64 deltas).  C03's codec model (`SV.C03.packDeltas / unpackDeltas`, read only) restores ANY sequence of uint64 MIDs
+exactly - neighbours 25, 30, 90, 190 or 400 days apart (deltas of 2^31 .. 2^35 ms and beyond) included - so
+`c14_narrowed_pruned_eq_unpruned`, stated over the stored IDs, is about the IDs the sealed fraction really reads. -/
+theorem c14_mids_block_roundtrip (mids : List Nat) (h : ∀ m, m ∈ mids → m < SV.C03.W64) :
+    SV.C03.unpackDeltas (SV.C03.packDeltas mids) = some mids := SV.C03.deltas_roundtrip mids h
+
 /-! ## Composition with C05: `SearchDocs` does not notice the distribution refinement -/
 
 /-- **C14 ∘ C05.**  C05 (`SV.Merge.searchDocs`) models `Searcher.SearchDocs` with `prepareFracs` filtering by the
@@ -626,5 +637,16 @@ theorem c14_x_cache_load :
       "if ok { l.cachedFracs++ } else { l.uncachedFracs++ }", "sealed := l.fracProvider.NewSealed(info.base, cachedInfo)",
       "stats := sealed.Info()", "l.fracCache.AddFraction(stats.Name(), stats)", "return sealed"] ∧
     initEmptyDistributionCallers = ["cmd/distribution/main.go:main", "frac/info.go:BuildDistribution"] := by decide
+
+set_option maxRecDepth 8192 in
+/-- the MID blocks are written as `PutVarint(int64(mid - prev))` and read back by the generic `binary.Varint` loop
+(64-bit arithmetic, no shortened decoder), which is what `SV.C03.packDeltas / unpackDeltas` model -/
+theorem c14_x_mids_block_codec :
+    packMIDs = ["var mid, prev uint64", "for _, id := range b.ids { mid = uint64(id.MID) p.PutVarint(int64(mid - prev)) prev = mid }"] ∧
+    unpackMIDs = ["c.lastBlock = index", "c.startLID = uint64(index) * consts.IDsPerBlock",
+      "c.values = unpackRawIDsVarint(data, c.values)"] ∧
+    unpackRawIDsVarint = ["dst = dst[:0]", "id := uint64(0)",
+      "for len(src) != 0 { delta, n := binary.Varint(src) if n <= 0 { panic(\"varint decoded with error\") } src = src[n:] id += uint64(delta) dst = append(dst, id) }",
+      "return dst"] := by decide
 
 end SV.Props.C14
